@@ -101,9 +101,26 @@ def _scenario(inp):
         return SubtomogramLoader(wrap(tomos[0]), Molecules(mol_pos, features={"g": ((2 * np.arange(n) + 2) % 3)}),     # first appearances 2, 1, 0
                                  order=0, output_shape=(box,) * 3), tomos, mol_pos, mol_id
     b = BatchLoader(order=0, output_shape=(box,) * 3)
-    for t in range(ntomo):
+
+    def mols(t):
         sel = [i for i in range(n) if mol_id[i] == t]
-        b.add_tomogram(wrap(tomos[t]), Molecules(mol_pos[sel], features={"tag": sel, "g": [(2 * i + 2) % 3 for i in sel]}), t)
+        return Molecules(mol_pos[sel], features={"tag": sel, "g": [(2 * i + 2) % 3 for i in sel]})
+    if inp.get("merge_history") and ntomo >= 3:
+        # the batch as the result of a history: automatic ids, a tomogram that loses all its molecules (the id
+        # table gets a gap) and a second batch merged in with add_loader -- the same molecules in the same tomograms
+        import polars as pl
+        b.add_tomogram(wrap(tomos[0]), mols(0))
+        b.add_tomogram(np.full_like(tomos[0], 777.0), Molecules(np.array([[5.0, 5.0, 5.0]], dtype=np.float32),
+                                                              features={"tag": [-1], "g": [0]}))
+        b.add_tomogram(wrap(tomos[1]), mols(1))
+        b = b.filter(pl.col("tag") >= 0)
+        other = BatchLoader(order=0, output_shape=(box,) * 3)
+        for t in range(2, ntomo):
+            other.add_tomogram(wrap(tomos[t]), mols(t))
+        b.add_loader(other)
+    else:
+        for t in range(ntomo):
+            b.add_tomogram(wrap(tomos[t]), mols(t), t)
     if inp["interleave"]:
         b = b.replace(molecules=b.molecules.sort("tag"))
     return b, tomos, mol_pos, mol_id
@@ -285,6 +302,12 @@ def oracle(rng, thorough, deep=False, hints=None):
                           chunks=[None, (8, 8, 8), (23, 12, 5)][it % 3], seed=int(rng.integers(0, 10 ** 6)),
                           n_sets=[1, 3] if it % 3 == 0 else [1, 2], split_seeds=[0, int(rng.integers(1, 50))],
                           group_split=bool(it % 2)))
+    # always: batches that are the result of a history (gapped id table, then add_loader of another batch)
+    for it in range(2):
+        nt = 3 + it
+        cases.append(dict(kind="batch", ntomo=nt, n=int(rng.integers(2 * nt, 4 * nt)), box=3, interleave=bool(it),
+                          chunks=[None, (8, 8, 8)][it], seed=int(rng.integers(0, 10 ** 6)), n_sets=[1], split_seeds=[0],
+                          group_split=False, merge_history=True))
     # the stack split into several dask blocks of unequal length ("auto" chunks under a small chunk-size)
     for it in range(6 if big else 3):
         kind = "single" if it % 2 == 0 else "batch"
